@@ -21,11 +21,20 @@ class ModelGap(pse.PseAbort):
 
 # --------------------------------------------------------------------------------------------- hash model
 class HashModel:
+    """digests = applications of fixed-arity uninterpreted functions H_alg_n over integer arguments, with
+    args == args' <=> value == value' asserted for every pair of the same algorithm (injectivity = the
+    collision-freeness assumption).  Applications whose arguments are all concrete get a distinct concrete
+    value (asserted equal to the UF term), so comparisons among them need no solver call."""
+
     def __init__(self):
         self.funcs = {}
-        self.terms = []  # (alg, args, val)
+        self.sym_terms = []  # (alg, args, val)
+        self.conc_terms = []
+        self.cache = {}
         self.bytes_ids = {}
         self.count = 0
+        self.concrete_ids = True
+        self._next = 10 ** 9
 
     def bytes_id(self, b):
         return self.bytes_ids.setdefault(bytes(b), 1000 + len(self.bytes_ids))
@@ -39,29 +48,45 @@ class HashModel:
             if isinstance(x, int):
                 args.append(z3.IntVal(x))
             elif isinstance(x, SymInt):
-                args.append(x.z)
+                args.append(z3.simplify(x.z))
             else:
-                args.append(x)
-        n = len(args)
-        key = (alg, n)
-        if key not in self.funcs:
-            self.funcs[key] = (z3.Function("H_%s_%d" % (alg, n), *([z3.IntSort()] * (n + 1))) if n
-                               else z3.Int("H_%s_0" % alg))
-        val = self.funcs[key](*args) if n else self.funcs[key]
-        e = pse.cur()
+                args.append(z3.simplify(x))
         self.count += 1
-        for (a2, args2, v2) in self.terms:
+        key = (alg,) + tuple(a.get_id() for a in args)
+        if key in self.cache:
+            return Dig(alg, self.cache[key][1])
+        n = len(args)
+        fkey = (alg, n)
+        if fkey not in self.funcs:
+            self.funcs[fkey] = (z3.Function("H_%s_%d" % (alg, n), *([z3.IntSort()] * (n + 1))) if n
+                                else z3.Int("H_%s_0" % alg))
+        term = self.funcs[fkey](*args) if n else self.funcs[fkey]
+        e = pse.cur()
+        concrete = all(z3.is_int_value(a) for a in args)
+        if concrete and self.concrete_ids:
+            self._next += 1
+            val = z3.IntVal(self._next)
+            e.add(term == val)
+            others = self.sym_terms
+            self.conc_terms.append((alg, args, val))
+        else:
+            val = term
+            others = self.sym_terms + self.conc_terms
+            self.sym_terms.append((alg, args, val))
+        for (a2, args2, v2) in others:
             if a2 != alg:
                 continue
-            if len(args2) == n:
-                if n:
-                    same = z3.simplify(z3.And(*[x == y for x, y in zip(args, args2)]))
-                    if z3.is_true(same):
-                        continue  # congruence is free
+            if len(args2) == n and n:
+                same = z3.simplify(z3.And(*[x == y for x, y in zip(args, args2)]))
+                if z3.is_true(same):
+                    e.add(v2 == val)
+                elif z3.is_false(same):
+                    e.add(v2 != val)
+                else:
                     e.add(same == (v2 == val))
             else:
                 e.add(v2 != val)
-        self.terms.append((alg, args, val))
+        self.cache[key] = (args, val)  # keep args alive: ast ids are only unique among live terms
         return Dig(alg, val)
 
 
